@@ -550,6 +550,15 @@ func catalogue(q sigreq.Req, w *sigreq.Wire, s *sigreq.Signed) []mutant {
 				}
 			}
 		}
+		for _, i := range positions(len(data), 4) {
+			// the chunk claims all the rest of the body as its data, so the stream ends inside a chunk
+			if nb, ok := sigreq.OversizeChunk(body, data[i], false); ok {
+				addStream("chunk:oversize-to-end", nb)
+			}
+			if nb, ok := sigreq.OversizeChunk(body, data[i], true); ok {
+				addStream("chunk:oversize-to-end-same-length", nb)
+			}
+		}
 		for _, i := range positions(len(ch), 8) {
 			c := ch[i]
 			nb := append([]byte(nil), body...)
@@ -688,6 +697,14 @@ func run(env *ev.Env, c Case) (o ev.Outcome) {
 				o.Failf("mutation %s accepted as %q: the handler read the body (%d bytes) without error although a chunk/trailer signature or the signed trailer was altered (mode %s)", m.name, res.KeyID, len(res.Body), q.Mode)
 				return
 			}
+			if walked, end := sigreq.WalkChunks(m.w.Body); end == "inside-chunk" && bytes.HasPrefix(walked, res.Body) {
+				o.Class("accepted:stream-ends-inside-chunk")
+				if env.Known("c28.streamEndsInsideChunk") {
+					o.KnownHits = append(o.KnownHits, "KF-C28-3")
+					semantic++
+					continue
+				}
+			}
 			if kind == "chunk:truncate-after" || kind == "chunk:truncate-before" || kind == "chunk:drop-final" {
 				if bytes.HasPrefix(s.Payload, res.Body) && q.TE {
 					o.Class("accepted:truncated-stream")
@@ -730,7 +747,7 @@ func run(env *ev.Env, c Case) (o ev.Outcome) {
 	if !q.TE {
 		raw := w.Bytes()
 		for _, e := range c.Edits {
-			v, sem := byteEdit(q, w, s, raw, e)
+			v, sem := byteEdit(q, w, s, raw, e, env.Known("c28.streamEndsInsideChunk"), &o)
 			o.Sub++
 			if v != "" {
 				o.Failf("%s", v)
@@ -917,7 +934,7 @@ func signedSet(w *sigreq.Wire) map[string]bool {
 }
 
 // byteEdit applies one edit to the wire bytes of an accepted request; "" = property held (or edit not semantic).
-func byteEdit(q sigreq.Req, w *sigreq.Wire, s *sigreq.Signed, raw []byte, e Edit) (violation string, semantic bool) {
+func byteEdit(q sigreq.Req, w *sigreq.Wire, s *sigreq.Signed, raw []byte, e Edit, knownInsideChunk bool, o *ev.Outcome) (violation string, semantic bool) {
 	signed := signedSet(w)
 	streaming := q.Mode == sigreq.ModeStream || q.Mode == sigreq.ModeStreamTrailer
 	bodySigned := q.Mode == sigreq.ModeHash || streaming
@@ -956,6 +973,20 @@ func byteEdit(q sigreq.Req, w *sigreq.Wire, s *sigreq.Signed, raw []byte, e Edit
 		}
 		if bytes.Equal(res.Body, s.Payload) {
 			return "", false
+		}
+		if r2, err := http.ReadRequest(bufio.NewReader(bytes.NewReader(mut))); err == nil {
+			mb, _ := io.ReadAll(r2.Body)
+			if walked, end := sigreq.WalkChunks(mb); end == "inside-chunk" && bytes.HasPrefix(walked, res.Body) {
+				if o != nil {
+					o.Class("accepted:stream-ends-inside-chunk")
+				}
+				if knownInsideChunk {
+					if o != nil {
+						o.KnownHits = append(o.KnownHits, "KF-C28-3")
+					}
+					return "", true
+				}
+			}
 		}
 		return fmt.Sprintf("byte edit in the aws-chunked body at %d accepted: handler read %d bytes != payload %d bytes (mode %s)", i-headEnd, len(res.Body), len(s.Payload), q.Mode), true
 	}
@@ -1006,7 +1037,7 @@ func fuzzOne(which uint8, pos uint16, val uint8, op uint8) string {
 	if !(base.Reached && base.Authenticated && base.BodyErr == nil && bytes.Equal(base.Body, s.Payload)) {
 		return "unmutated request not accepted: " + fmt.Sprint(base.Status)
 	}
-	v, _ := byteEdit(q, w, s, raw, Edit{Pos: pos, Val: val, Op: op})
+	v, _ := byteEdit(q, w, s, raw, Edit{Pos: pos, Val: val, Op: op}, false, nil)
 	return v
 }
 
